@@ -475,6 +475,17 @@ func (w *c10World) judge(c *cUpdate, how string) (sig, what string, reached bool
 	if err == nil && acc == nil {
 		return "Update.Verify-returns-no-accumulator", how, true
 	}
+	// the same received object presented again (a receiver that retries): same verdict
+	var err2 error
+	if ps := vfh.Guard(func() { _, err2 = u1.Verify(pk) }); ps != "" {
+		return ps + ":Update.Verify:second-call-on-the-same-object", how, true
+	}
+	if (err == nil) != (err2 == nil) {
+		if err2 == nil {
+			return "unauthentic-update-accepted:Update.Verify:second-call-on-the-same-object", how, true
+		}
+		return "authentic-update-rejected:Update.Verify:second-call-on-the-same-object", fmt.Sprintf("%s: %v", how, err2), true
+	}
 	// ---- Witness.Update, witness positioned just before the window (or at 0), and at the
 	// window's last index (the "same accumulator index" path)
 	for _, pos := range []int{w.a - 1, w.b} {
@@ -516,6 +527,17 @@ func (w *c10World) judgeWitness(recv *Update, authentic bool, how string, pos in
 		}
 		if !unchanged {
 			return "rejected-update-changes-witness", how
+		}
+		// retry with the same update object and witness: still refused, still unchanged
+		if ps := vfh.Guard(func() { err = wit.Update(pk, u2) }); ps != "" {
+			return ps + ":Witness.Update:second-call-on-the-same-objects", how
+		}
+		if err == nil {
+			return "unauthentic-update-accepted:Witness.Update:second-call-on-the-same-objects", how
+		}
+		if !(wit.U.Cmp(snapU) == 0 && wit.E.Cmp(snapE) == 0 && wit.SignedAccumulator == snapPtr &&
+			bytes.Equal(wit.SignedAccumulator.Data, snapS.Data) && wit.SignedAccumulator.PKCounter == snapS.PKCounter && wit.SignedAccumulator.Accumulator == snapS.Accumulator) {
+			return "rejected-update-changes-witness:second-call-on-the-same-objects", how
 		}
 		return "", ""
 	}
